@@ -630,9 +630,36 @@ def local_checks(case, ar, check_md=True):
     return V, C
 
 
+def loop_blocks(ar):
+    """[(t0, t1)] during which a consumer kept the loop thread busy (kind sync_block): no timer could fire"""
+    out, open_ = [], {}
+    for e in ar.log.ev:
+        if e[2] == 'START':
+            open_[(e[3], e[5])] = e[1]
+        elif e[2] in ('END', 'FAILED') and (e[3], e[5]) in open_:
+            t0 = open_.pop((e[3], e[5]))
+            if e[1] > t0:
+                kinds = {s['id']: s.get('kind') for s in ar.case['prog']['nodes']}
+                if kinds.get(e[3]) == 'sync_block':
+                    out.append((t0, e[1]))
+    return out
+
+
+def _due_or_when_loop_free(expected, blocks):
+    """the instants at which a timer due at `expected` may fire: then, or -- if the loop is busy then -- when it is free again"""
+    ok = [expected]
+    t = expected
+    for b0, b1 in sorted(blocks):
+        if b0 <= t + 1e-9 and t < b1:
+            t = b1
+            ok.append(t)
+    return ok
+
+
 def _check_timeout_partition(spec, I, O, bad, check_md, ar):
     nid = spec['id']
     n, T = spec['n'], spec['timeout']
+    blocks = loop_blocks(ar)
     per_key_in, per_key_out = {}, {}
     for e in I:
         per_key_in.setdefault(M._key(spec, e[5]), []).append(e)
@@ -665,8 +692,9 @@ def _check_timeout_partition(spec, I, O, bad, check_md, ar):
                 if abs(e[1] - members[-1][1]) > EPS:
                     bad('size-flush-late', nid, {'batch': _v(e[4]), 'filled_at': members[-1][1], 'emitted_at': e[1]})
             else:
-                # partial: exactly one timeout after its first member
-                if abs(e[1] - (members[0][1] + T)) > 1e-6:
+                # partial: exactly one timeout after its first member (or, if a consumer keeps the loop thread busy at that
+                # moment, as soon as the loop is free again)
+                if not any(abs(e[1] - t_ok) <= 1e-6 for t_ok in _due_or_when_loop_free(members[0][1] + T, blocks)):
                     bad('partial-partition-at-wrong-time', nid,
                         {'batch': _v(e[4]), 'first_member_at': members[0][1], 'timeout': T, 'emitted_at': e[1]})
             if check_md and _mdids(e[5]) != [m for a in members for m in _mdids(a[6])]:
